@@ -1,10 +1,11 @@
 (* Automation for the soundness of the (translated) leaf decisions.  Nothing here mentions the
    shape of filter_val / filter_in / filter_not_in: the text is evaluated symbolically (cbv with the
-   integer comparisons and the list primitives kept folded, the list primitives then rewritten to
-   functions on `list Z`), every comparison is split by its specification, order facts about
-   sorted()/searchsorted() are added for whatever terms occur, and lia closes the goals.  A rewrite
-   that keeps the decision (reordered blocks, or-ed comparisons instead of `in [...]`) goes through;
-   a change of the decision leaves a goal open. *)
+   integer comparisons and the list primitives kept folded; calls on literal lists are computed, the
+   list primitives on an abstract list of integers are rewritten to functions on `list Z`), every
+   comparison is split by its specification, order facts about sorted()/searchsorted() are added
+   for whatever terms occur, and lia closes the goals.  A rewrite that keeps the decision (reordered
+   blocks, or-ed comparisons instead of `in [...]`) goes through; a change of the decision leaves a
+   goal open. *)
 From Coq Require Import ZArith List String Bool Lia.
 From Pq Require Import Base.PyVal Impl.Filter Proofs.PyValProofs.
 Import ListNotations.
@@ -12,11 +13,6 @@ Open Scope Z_scope.
 
 Ltac zcases :=
   repeat match goal with
-  | H : context [Z.gtb ?a ?b] |- _ => destruct (Z.gtb_spec a b)
-  | H : context [Z.geb ?a ?b] |- _ => destruct (Z.geb_spec a b)
-  | H : context [Z.ltb ?a ?b] |- _ => destruct (Z.ltb_spec a b)
-  | H : context [Z.leb ?a ?b] |- _ => destruct (Z.leb_spec a b)
-  | H : context [Z.eqb ?a ?b] |- _ => destruct (Z.eqb_spec a b)
   | |- context [Z.gtb ?a ?b] => destruct (Z.gtb_spec a b)
   | |- context [Z.geb ?a ?b] => destruct (Z.geb_spec a b)
   | |- context [Z.ltb ?a ?b] => destruct (Z.ltb_spec a b)
@@ -24,32 +20,36 @@ Ltac zcases :=
   | |- context [Z.eqb ?a ?b] => destruct (Z.eqb_spec a b)
   end.
 
+Ltac pycbv H :=
+  cbv -[Z.ltb Z.leb Z.gtb Z.geb Z.eqb Z.of_nat List.length last ints zmem zsort zcount
+        py_len py_in py_not_in py_sorted py_index py_searchsorted_left py_searchsorted_right] in H.
 Ltac pycbv_goal :=
   cbv -[Z.ltb Z.leb Z.gtb Z.geb Z.eqb Z.of_nat List.length last ints zmem zsort zcount
         py_len py_in py_not_in py_sorted py_index py_searchsorted_left py_searchsorted_right].
 
-(* list primitives on an abstract list of integers become functions on `list Z` *)
-Ltac list_rw H := first
-  [ rewrite py_len_ints in H | rewrite py_in_ints in H | rewrite py_not_in_ints in H
-  | rewrite py_sorted_ints in H | rewrite py_ss_left_ints in H | rewrite py_ss_right_ints in H
-  | rewrite py_index0_ints in H | rewrite py_index_m1_ints in H ].
-
-(* the call at the head of a bind: all its arguments are values by now; compute it *)
-Ltac eval_call H :=
+(* a list primitive called on a literal list (`op in ['==', '>=', '=']`): compute it *)
+Ltac eval_lit H :=
   match type of H with
-  | context [match ?p with Ok _ => _ | Err _ => _ end] =>
-    lazymatch p with
-    | Ok _ => fail
-    | Err _ => fail
-    | match _ with _ => _ end => fail
-    | _ => idtac
-    end;
-    let r := eval cbv -[Z.ltb Z.leb Z.gtb Z.geb Z.eqb Z.of_nat List.length last ints zmem zsort zcount] in p in
-    lazymatch r with
-    | Ok _ => idtac
-    | Err _ => idtac
-    end;
-    change p with r in H
+  | context [py_in ?a (PList ?l)] => let t := constr:(py_in a (PList l)) in
+      let r := eval cbv -[Z.ltb Z.leb Z.gtb Z.geb Z.eqb] in t in change t with r in H
+  | context [py_not_in ?a (PList ?l)] => let t := constr:(py_not_in a (PList l)) in
+      let r := eval cbv -[Z.ltb Z.leb Z.gtb Z.geb Z.eqb] in t in change t with r in H
+  | context [py_len (PList ?l)] => let t := constr:(py_len (PList l)) in
+      let r := eval cbv in t in change t with r in H
+  end.
+
+(* list primitives on an abstract list of integers become functions on `list Z` *)
+Ltac list_rw H :=
+  match type of H with
+  | context [py_len (ints ?l)] => rewrite (py_len_ints l) in H
+  | context [py_in (PInt ?x) (ints ?l)] => rewrite (py_in_ints x l) in H
+  | context [py_not_in (PInt ?x) (ints ?l)] => rewrite (py_not_in_ints x l) in H
+  | context [py_sorted (ints ?l)] => rewrite (py_sorted_ints l) in H
+  | context [py_searchsorted_left (ints ?l) (PInt ?v)] => rewrite (py_ss_left_ints l v) in H
+  | context [py_searchsorted_right (ints ?l) (PInt ?v)] => rewrite (py_ss_right_ints l v) in H
+  | context [py_index (ints ?l) (PInt 0)] => rewrite (py_index0_ints l) in H
+  | context [py_index (ints ?l) (PInt (-1))] => rewrite (py_index_m1_ints l) in H
+  | context [py_index (PArr [?m]) (PInt 0)] => rewrite (py_index_arr1 m) in H
   end.
 
 (* split ONE undecided test occurring in H by its specification *)
@@ -64,12 +64,21 @@ Ltac split_test H :=
   | context [match zsort ?l with _ => _ end] => let E := fresh "Esort" in destruct (zsort l) eqn:E
   end.
 
-Ltac py_red H := cbn [bind truthy ok_true negb] in H.
+(* a comparison that is the returned value itself (`return a == b`) *)
+Ltac split_ret H :=
+  match type of H with
+  | context [Z.gtb ?a ?b] => destruct (Z.gtb_spec a b)
+  | context [Z.geb ?a ?b] => destruct (Z.geb_spec a b)
+  | context [Z.ltb ?a ?b] => destruct (Z.ltb_spec a b)
+  | context [Z.leb ?a ?b] => destruct (Z.leb_spec a b)
+  | context [Z.eqb ?a ?b] => destruct (Z.eqb_spec a b)
+  end.
 
-(* symbolic execution of the translated text in H (the leaf functions already unfolded) *)
+(* symbolic execution of the translated text in H *)
 Ltac py_eval H :=
-  py_red H;
-  repeat (first [ list_rw H | eval_call H | split_test H ]; py_red H; try discriminate H).
+  pycbv H; try discriminate H;
+  repeat (first [ eval_lit H | list_rw H | split_test H ]; pycbv H; try discriminate H);
+  repeat (split_ret H; try discriminate H).
 
 (* order facts for whatever sorted()/searchsorted() terms are around *)
 Ltac list_facts :=
@@ -113,9 +122,9 @@ Ltac bound_shapes Hlo Hhi :=
   let a := fresh "a" in let b := fresh "b" in let La := fresh "La" in let Lb := fresh "Lb" in
   destruct Hlo as [->|[a [[->| ->] La]]]; destruct Hhi as [->|[b [[->| ->] Lb]]].
 
-(* integer cell: H is the "skip" decision (leaf functions unfolded), the goal is sat ... = false *)
+(* integer cell: H is the "skip" decision, the goal is sat ... = false *)
 Ltac leaf_scalar_int H :=
-  py_eval H; pycbv_goal; zcases; finish.
+  py_eval H; pycbv_goal; zcases; try reflexivity; finish.
 
 (* integer cell, `in` / `not in` against a list of integers *)
 Ltac leaf_list_int H :=
